@@ -289,7 +289,7 @@ def module_work(name, mod, tier, rng, viols, cells, counters, samples, probe, ca
             if len(samples) < 2:
                 samples.append({'module': name, 'generator': gname, 'length': L, 'rule': list(rule), 'agreeing_documented_numbers': hits})
             # M2: alternatives at the check positions
-            pool = vs[:6] + [s for s in synth if len(s) == L][:6 if tier == 'quick' else 300]
+            pool = vs[:12] + [s for s in synth if len(s) == L][:28 if tier == 'quick' else 600]
             for v in pool:
                 for p in range(i, i + k):
                     for c in sorted(checkalpha):
@@ -307,6 +307,36 @@ def module_work(name, mod, tier, rng, viols, cells, counters, samples, probe, ca
                                 '%r is valid and so is %r (check position %d: %r -> %r)' % (v, t, p, v[p], c),
                                 {'module': name, 'number': v, 'other': t, 'generator': gname, 'kind': 'm2'})
             mapped_rules.setdefault(L, []).append((gname, g, rule))
+        # M1b: a length class this generator could not be mapped on although validate() consults it there, while a
+        # sibling length is mapped with the check characters at the end: the public generator is given the rest of
+        # the number in the same way (end-relative) and must reproduce the characters the valid number carries
+        ends = [(L2, r) for L2, lst in mapped_rules.items() for (gn2, _g2, r) in lst if gn2 == gname and r[0] in ('del', 'head') and r[1] + r[2] == L2]
+        if ends:
+            k = ends[0][1][2]
+            for L, vs in by_len.items():
+                if any(gn2 == gname for (gn2, _g2, _r) in mapped_rules.get(L, [])) or L <= k + 1:
+                    continue
+                consulted_here = 0
+                disagree = []
+                for v in vs[:20]:
+                    del calls[:]
+                    C.outcome(mod.validate, v)
+                    if gname.split('[')[0] not in {tag[1] for (tag, _a, _r) in calls if tag[0] == name}:
+                        continue
+                    consulted_here += 1
+                    r = call_gen(g, v[:L - k])
+                    evals += 2
+                    if r is not None and r != v[L - k:]:
+                        disagree.append((v, r))
+                if consulted_here >= 2 and len(disagree) >= 0.5 * consulted_here:
+                    v, r = disagree[0]
+                    cand = candidates(name, gname, v[:L - k])
+                    if cand is not None and v[L - k:] in cand:
+                        continue
+                    add(viols, 'C05|%s|%s|generator-disagrees-with-valid-number|rule-of-sibling-length' % (name, gname),
+                        '%s.validate accepts %r and consults %s, but %s(%r) = %r while the number ends in %r (numbers of length %d follow that rule)' % (
+                            name, v, gname, gname, v[:L - k], r, v[L - k:], ends[0][0]),
+                        {'module': name, 'number': v, 'generator': gname, 'rule': ['del', L - k, k], 'kind': 'm1'})
     # M3: converse - generated check characters on fresh payloads are never a checksum error.  All mapped
     # generators of a length class are applied in order of position; a checksum failure is attributed to a
     # generator only if some other character at its check position would have been accepted.
